@@ -289,9 +289,11 @@ impl<'a, F: Spill> ConvergenceMap<'a, F> {
     }
 
     /// Load a spilled block into memory, evicting the LRU block.
-    fn load_block_from_disk(&mut self, root_idx: usize) -> Result<usize, ClientError> {
-        let loaded = self.read_block_from_disk(root_idx)?;
-
+    fn load_block_from_disk(
+        &mut self,
+        root_idx: usize,
+        loaded: Block,
+    ) -> Result<usize, ClientError> {
         // Remove from root index — data is now in memory.
         self.storage.root.swap_remove(root_idx);
 
@@ -405,15 +407,17 @@ impl<'a, F: Spill> ConvergenceMap<'a, F> {
             while ri < self.storage.root.len() {
                 let node = self.storage.root[ri];
                 if location.max_cut >= node.min_max_cut && location.max_cut <= node.max_max_cut {
-                    // Load block into memory (removes root[ri] via swap_remove).
-                    let bi = self.load_block_from_disk(ri)?;
-                    if let Some(ei) = self.storage.blocks[bi].find(location) {
+                    // Only bring the block into memory if it holds the
+                    // location: loading evicts another block to the root
+                    // index, so loading blocks that merely overlap the
+                    // range could re-scan evicted blocks forever.
+                    let loaded = self.read_block_from_disk(ri)?;
+                    if let Some(ei) = loaded.find(location) {
+                        let bi = self.load_block_from_disk(ri, loaded)?;
                         return self.consume_entry(bi, ei);
                     }
-                    // Don't increment ri — swap_remove moved a new entry here.
-                } else {
-                    ri = ri.checked_add(1).assume("ri must not overflow")?;
                 }
+                ri = ri.checked_add(1).assume("ri must not overflow")?;
             }
         }
 
